@@ -4,6 +4,7 @@ import (
 	"bytes"
 	"context"
 	"fmt"
+	"strings"
 	"sync"
 	"testing"
 	"time"
@@ -597,3 +598,281 @@ func execC18Parked(t *testing.T, c C18Parked) (v Verdict) {
 }
 
 func TestC18Parked(t *testing.T) { checkProp(t, "C18", "parked", genC18Parked, execC18Parked) }
+
+// ---- C18 storm: Cancel concurrent with new keys being attached --------------------------------
+
+type C18Storm struct {
+	Keys   int    `json:"keys"`   // keys fed, in order k0.. (each gets Msgs envelopes, key by key or interleaved)
+	Msgs   int    `json:"msgs"`   // envelopes per key
+	Cancel []bool `json:"cancel"` // which keys are cancelled by a second goroutine while the feeding is going on
+	Inter  bool   `json:"inter"`  // feed round-robin over the keys instead of key by key
+	Ser    bool   `json:"ser"`
+}
+
+func genC18Storm(t *rapid.T) C18Storm {
+	c := C18Storm{Keys: rapid.SampledFrom([]int{2, 4, 8, 16, 24}).Draw(t, "keys"), Msgs: rapid.IntRange(1, 4).Draw(t, "msgs"), Inter: rapid.Bool().Draw(t, "inter"), Ser: rapid.Bool().Draw(t, "ser")}
+	for i := 0; i < c.Keys; i++ {
+		c.Cancel = append(c.Cancel, rapid.IntRange(0, 2).Draw(t, "cancel") == 0)
+	}
+	return c
+}
+
+// execC18Storm: one goroutine feeds envelopes for Keys keys without pausing, a second one cancels some of the keys at the
+// same time, every announced logical connection is read to its end. Keys that are never cancelled must be announced
+// exactly once and receive exactly their envelopes in order; cancelled keys may lose envelopes (that is what Cancel
+// means) but never see them duplicated, reordered or delivered to another key's connection; nothing crashes and the
+// run loop ends at Stop.
+func execC18Storm(t *testing.T, c C18Storm) (v Verdict) {
+	type life struct {
+		key string
+		ids []uint64
+	}
+	var mu sync.Mutex
+	var lives []*life
+	runEnded, ended := false, false
+	res := kit.Bubble(t, func() {
+		bg := context.Background()
+		shared := kit.NewLink("shared", kit.NewTap(), c.Ser)
+		dm := goat.NewDemux(bg, shared.B, func(r *goat.Rpc) string { return r.GetHeader().GetSource() }, func(rw goat.RpcReadWriter) {
+			l := &life{}
+			mu.Lock()
+			lives = append(lives, l)
+			mu.Unlock()
+			go func() {
+				for {
+					r, err := rw.Read(bg)
+					if err != nil {
+						return
+					}
+					mu.Lock()
+					if l.key == "" {
+						l.key = r.GetHeader().GetSource()
+					} else if l.key != r.GetHeader().GetSource() {
+						l.key = l.key + "+" + r.GetHeader().GetSource() // foreign envelope: flagged below
+					}
+					l.ids = append(l.ids, r.GetId())
+					mu.Unlock()
+				}
+			}()
+		})
+		go func() {
+			dm.Run()
+			mu.Lock()
+			runEnded = true
+			mu.Unlock()
+		}()
+		start := make(chan struct{})
+		var wg sync.WaitGroup
+		wg.Add(2)
+		go func() {
+			defer wg.Done()
+			<-start
+			send := func(k, j int) {
+				_ = shared.A.Write(bg, &goat.Rpc{Id: uint64(1000*k + j + 1), Header: &goatorepo.RequestHeader{Method: "/x/y", Source: fmt.Sprintf("k%d", k), Destination: "srv"}})
+			}
+			if c.Inter {
+				for j := 0; j < c.Msgs; j++ {
+					for k := 0; k < c.Keys; k++ {
+						send(k, j)
+					}
+				}
+			} else {
+				for k := 0; k < c.Keys; k++ {
+					for j := 0; j < c.Msgs; j++ {
+						send(k, j)
+					}
+				}
+			}
+		}()
+		go func() {
+			defer wg.Done()
+			<-start
+			for k, yes := range c.Cancel {
+				if yes {
+					dm.Cancel(fmt.Sprintf("k%d", k))
+				}
+			}
+		}()
+		kit.Settle()
+		close(start)
+		wg.Wait()
+		kit.Settle()
+		dm.Stop()
+		shared.Close()
+		kit.Settle()
+		mu.Lock()
+		ended = runEnded
+		mu.Unlock()
+		for k := 0; k < c.Keys; k++ {
+			dm.Cancel(fmt.Sprintf("k%d", k)) // ends the readers of the connections that are still alive
+		}
+		kit.Settle()
+	})
+	if res.Panic != nil {
+		v.failf("panic: %v\n%s", res.Panic, res.Stack)
+	}
+	if len(res.Leaked) > 0 {
+		v.failf("goroutines left after Stop and Cancel of every key:\n%s", strings.Join(res.Leaked, "\n"))
+	}
+	mu.Lock()
+	defer mu.Unlock()
+	runEnded = ended
+	if !runEnded {
+		v.failf("the run loop did not end at Stop")
+	}
+	perKey := map[string][]*life{}
+	for _, l := range lives {
+		if strings.Contains(l.key, "+") {
+			v.failf("one logical connection received envelopes of several keys: %s", l.key)
+		}
+		perKey[l.key] = append(perKey[l.key], l)
+	}
+	cancelled := 0
+	for k := 0; k < c.Keys; k++ {
+		key := fmt.Sprintf("k%d", k)
+		var all []uint64
+		for _, l := range perKey[key] {
+			all = append(all, l.ids...)
+			for i := 1; i < len(l.ids); i++ {
+				if l.ids[i] <= l.ids[i-1] {
+					v.failf("%s: envelopes duplicated or reordered on one logical connection: %v", key, l.ids)
+				}
+			}
+		}
+		seen := map[uint64]bool{}
+		for _, id := range all {
+			if seen[id] {
+				v.failf("%s: envelope %d was handed out twice", key, id)
+			}
+			seen[id] = true
+			if id < uint64(1000*k+1) || id > uint64(1000*k+c.Msgs) {
+				v.failf("%s: received envelope %d which was never sent for this key", key, id)
+			}
+		}
+		if c.Cancel[k] {
+			cancelled++
+			continue
+		}
+		if len(perKey[key]) != 1 {
+			v.failf("%s (never cancelled) was announced %d times, want exactly once", key, len(perKey[key]))
+		} else if len(all) != c.Msgs {
+			v.failf("%s (never cancelled) received %d of its %d envelopes: %v", key, len(all), c.Msgs, all)
+		}
+	}
+	v.Info = kit.CaseInfo{Labels: []string{"storm", fmt.Sprintf("storm.cancels=%v", cancelled > 0), fmt.Sprintf("storm.interleaved=%v", c.Inter)}, NonTrivial: cancelled > 0 && c.Keys >= 4, Key: fmt.Sprintf("%+v", c), Sample: c}
+	return
+}
+
+func TestC18Storm(t *testing.T) { checkProp(t, "C18", "storm", genC18Storm, execC18Storm) }
+
+// ---- C18 write fault: one write on the shared transport fails ---------------------------------
+
+type C18WriteFault struct {
+	Before  int    `json:"before"` // envelopes written successfully on k0 before the failing one
+	After   int    `json:"after"`  // envelopes fed for k0 after the fault
+	ErrKind string `json:"err_kind"`
+	Ser     bool   `json:"ser"`
+}
+
+func genC18WriteFault(t *rapid.T) C18WriteFault {
+	return C18WriteFault{Before: rapid.IntRange(0, 3).Draw(t, "before"), After: rapid.IntRange(1, 4).Draw(t, "after"), ErrKind: rapid.SampledFrom(kit.FaultErrKinds).Draw(t, "err_kind"), Ser: rapid.Bool().Draw(t, "ser")}
+}
+
+// execC18WriteFault: a failing write on the shared transport is not a cancellation of the key. Whatever happens to
+// later writes of that logical connection (not asserted), envelopes that arrive for the key are still handed to its
+// connection exactly once and in order, Cancel(key) afterwards behaves as always (no crash; reads and writes then fail),
+// and other keys are not disturbed.
+func execC18WriteFault(t *testing.T, c C18WriteFault) (v Verdict) {
+	defer kit.UseFaultKind(c.ErrKind)()
+	res := kit.Bubble(t, func() {
+		bg := context.Background()
+		shared := kit.NewLink("shared", kit.NewTap(), c.Ser)
+		var mu sync.Mutex
+		conns := map[string]goat.RpcReadWriter{}
+		dm := goat.NewDemux(bg, shared.B, func(r *goat.Rpc) string { return r.GetHeader().GetSource() }, func(rw goat.RpcReadWriter) {
+			r, err := rw.Read(bg)
+			if err != nil {
+				return
+			}
+			mu.Lock()
+			conns[r.GetHeader().GetSource()] = rw
+			mu.Unlock()
+		})
+		go dm.Run()
+		feed := func(k string, id uint64) {
+			_ = shared.A.Write(bg, &goat.Rpc{Id: id, Header: &goatorepo.RequestHeader{Method: "/x/y", Source: k, Destination: "srv"}})
+		}
+		feed("k0", 1)
+		feed("k1", 2)
+		kit.Settle()
+		mu.Lock()
+		rw0, rw1 := conns["k0"], conns["k1"]
+		mu.Unlock()
+		if rw0 == nil || rw1 == nil {
+			v.failf("logical connections were not announced")
+			return
+		}
+		out := func(rw goat.RpcReadWriter, to string, id uint64) {
+			wctx, cancel := context.WithTimeout(bg, time.Second)
+			defer cancel()
+			_ = rw.Write(wctx, &goat.Rpc{Id: id, Header: &goatorepo.RequestHeader{Method: "/x/y", Source: "srv", Destination: to}})
+		}
+		for i := 0; i < c.Before; i++ {
+			out(rw0, "k0", uint64(100+i))
+		}
+		kit.Settle()
+		if got := shared.A.ReadAvailable(); len(got) != c.Before {
+			v.failf("%d of %d envelopes written on k0 reached the shared transport", len(got), c.Before)
+		}
+		shared.B.FailWriteIf(func(r *goat.Rpc) bool { return r.GetId() == 777 })
+		out(rw0, "k0", 777)
+		kit.Settle()
+		shared.B.FailWriteIf(nil)
+		// envelopes arriving for k0 are still handed to its connection
+		for i := 0; i < c.After; i++ {
+			feed("k0", uint64(200+i))
+			kit.Settle()
+			rctx, cancel := context.WithTimeout(bg, time.Second)
+			got, err := rw0.Read(rctx)
+			cancel()
+			if err != nil || got.GetId() != uint64(200+i) {
+				v.failf("after a failed write on the shared transport, envelope %d for k0 was not handed to k0's logical connection (err %v)", 200+i, err)
+				break
+			}
+		}
+		// the other key is not disturbed
+		feed("k1", 300)
+		kit.Settle()
+		rctx, cancel := context.WithTimeout(bg, time.Second)
+		if got, err := rw1.Read(rctx); err != nil || got.GetId() != 300 {
+			v.failf("traffic of another key was disturbed by the failed write: %v", err)
+		}
+		cancel()
+		out(rw1, "k1", 301)
+		kit.Settle()
+		if got := shared.A.ReadAvailable(); len(got) != 1 || got[0].GetId() != 301 {
+			v.failf("a write on another key did not reach the shared transport after the failed write (got %d envelopes)", len(got))
+		}
+		// cancelling the key still works
+		dm.Cancel("k0")
+		kit.Settle()
+		rctx, cancel = context.WithTimeout(bg, time.Second)
+		if _, err := rw0.Read(rctx); err == nil {
+			v.failf("a read on the cancelled logical connection returned an envelope nobody sent")
+		}
+		cancel()
+		dm.Cancel("k1")
+		dm.Stop()
+		shared.Close()
+		kit.Settle()
+	})
+	if res.Panic != nil {
+		v.failf("panic: %v\n%s", res.Panic, res.Stack)
+	}
+	v.Info = kit.CaseInfo{Labels: []string{"writefault", "writefault.err=" + c.ErrKind}, NonTrivial: true, Key: fmt.Sprintf("%+v", c), Sample: c}
+	return
+}
+
+func TestC18WriteFault(t *testing.T) {
+	checkProp(t, "C18", "writefault", genC18WriteFault, execC18WriteFault)
+}
